@@ -1,5 +1,5 @@
 """Which cases and clauses make up each property (DESIGN.md section 7)."""
-from . import profile, qartod_attenuated, qartod_clim, qartod_flatline, qartod_location, qartod_range, qartod_spike, rate, utils_c
+from . import aggregate, profile, qartod_attenuated, qartod_clim, qartod_flatline, qartod_location, qartod_range, qartod_spike, rate, utils_c
 
 T_COMMON = [
     "T1 pyvc itself (proxy values, path exploration, VC generation) - mitigated by the conformance run, canaries and covers",
@@ -29,6 +29,7 @@ def _all_cases():
     cs += qartod_flatline.cases()
     cs += qartod_attenuated.cases()
     cs += qartod_clim.cases()
+    cs += aggregate.cases()
     cs += qartod_clim.add_cases()
     cs += [utils_c.Gcd()]
     return cs
@@ -57,6 +58,7 @@ PROPS = {
     "C01": _p("proof", "for every QC test: no feasible raising path, one flag per element, flag alphabet, no mask, no write to an argument buffer - obligations over the real functions for symbolic length and contents", [T_GEOD, T_ROLL, T_STAT]),
     "C02": _p("proof", "missing => MISSING (or UNKNOWN where undefined) and MISSING only when a needed value is missing, as postconditions at a Skolem index of the real functions", [T_GEOD, T_ROLL, T_STAT]),
     "C03": _p("proof", "every obligation generated from the real gross_range_test / valid_range_test is discharged for symbolic length, contents, spans and all inclusivity settings"),
+    "C04": _p("proof", "qartod_compare: five priorities unrolled, inner loop over a symbolic number of vectors cut by the invariant result[i] = ite(exists q<j. hit(q,i,p), p, roll-up of lower priorities); lemmas: never better than the worst input, permutation, duplication, grouping; aggregate() through the callee contract", assumptions=["PandasStore.compute_aggregate: verified under C19"]),
     "C08": _p("proof", "climatology_test / ClimatologyConfig.check: the member loop is cut by the invariant flag[i] = F_j(i) (fold of the statement over the first j members); body proved for one arbitrary member of each of the 20 shapes (5 period kinds x zspan x fspan); calendar attributes uninterpreted", ["pandas DatetimeIndex calendar attributes (month, week, dayofyear ...): uninterpreted functions of the timestamp; Series[bool] & MaskedArray rule (pyvc/pdmodel.py), conformance-checked"]),
     "C09": _p("proof", "spike_test: interior points by the statement's magnitude formula (both methods, thresholds present/absent), end points, ValueError on unknown method"),
     "C10": _p("proof", "rate_of_change_test and speed_test against rate = |dx| / whole elapsed seconds and geodesic speed; great_circle_distance verified against its contract and used through it", [T_GEOD]),
